@@ -474,6 +474,7 @@ type GhostFun struct {
 	Arg  string // type of the object it is attached to
 	Ret  string
 	Mem  string // "ghost T in CLASS": elements of the (slice) result live in memory class CLASS
+	InitFalse bool // "... initfalse": false for every newly allocated object
 	Stable bool // "... stable": not havocked by calls to unknown code (assumption: unknown code leaves it as it found it)
 }
 
@@ -839,6 +840,10 @@ func (sp *Specs) ParseSpecFile(path string, pkg string) error {
 			i := strings.Index(rest, "(")
 			j := matchParen(rest, i)
 			g := &GhostFun{Name: strings.TrimSpace(rest[:i]), Arg: strings.TrimSpace(rest[i+1 : j]), Ret: strings.TrimSpace(rest[j+1:])}
+			if strings.HasSuffix(g.Ret, " initfalse") {
+				g.InitFalse = true
+				g.Ret = strings.TrimSpace(strings.TrimSuffix(g.Ret, " initfalse"))
+			}
 			if strings.HasSuffix(g.Ret, " stable") {
 				g.Stable = true
 				g.Ret = strings.TrimSpace(strings.TrimSuffix(g.Ret, " stable"))
